@@ -339,6 +339,23 @@ fn emph_stress(rng: &mut Rng) -> String {
     s
 }
 
+/// dense soups of delimiter runs of every length class (1..9) around single letters: the openers-bottom table of the
+/// delimiter matcher (indexed by can-open x length mod 3) only matters after FAILED matches of several classes
+fn emph_soup(rng: &mut Rng) -> String {
+    let n = rng.range(3, 12);
+    let mut s = String::new();
+    let m = if rng.chance(3, 4) { "*" } else { "_" };
+    for _ in 0..n {
+        match rng.below(6) {
+            0 | 1 | 2 => { let mk = if rng.chance(5, 6) { m } else { *rng.pick(&["*", "_", "~"]) }; s.push_str(&mk.repeat(rng.range(1, 10))); }
+            3 => s.push_str(*rng.pick(&["a", "b", "c", "d"])),
+            4 => s.push(' '),
+            _ => { s.push_str(*rng.pick(&["a", "b"])); s.push_str(&m.repeat(rng.range(1, 4))); s.push_str(*rng.pick(&["c", " c", "d "])); }
+        }
+    }
+    s
+}
+
 fn nested_brackets(rng: &mut Rng) -> String {
     fn go(rng: &mut Rng, depth: usize, s: &mut String) {
         let n = rng.range(1, 3);
@@ -505,6 +522,9 @@ pub fn run(n: usize, rng: &mut Rng, out: &mut Out) {
                 let small: Vec<&Conf> = confs.iter().filter(|c| c.md.max_nesting >= 1 && c.md.max_nesting <= 5).collect();
                 let conf = if !small.is_empty() && rng.chance(3, 4) { *rng.pick(&small) } else { conf };
                 emit_parse(out, conf, &c, &[(0, 0)], &random_refs(rng), "parse:emph-forest");
+            } else if rng.chance(1, 2) {
+                let c = emph_soup(rng);
+                emit_parse(out, conf, &c, &[(0, 0)], &random_refs(rng), "parse:emph-soup");
             } else {
                 let c = doc::sig_string(rng, 30);
                 emit_parse(out, conf, &c, &[(0, 0)], &random_refs(rng), "parse:gen-sig-string");
